@@ -493,6 +493,15 @@ def _try_inline(st: ast.stmt, cands, caller, ccls, caller_locals) -> tuple[str, 
     for v in assigned - set(binding):
         if v in caller_locals:
             sub[v] = ast.Name(id=f"{v}__{name.strip('_')}", ctx=ast.Load())
+    # `t = helper(...)` where the helper returns one of its own locals: that local is the caller's t (no alias left behind)
+    if form == "assign" and isinstance(st, (ast.Assign, ast.AnnAssign)):
+        tgt_ = st.targets[0] if isinstance(st, ast.Assign) else st.target
+        rv_ = {r_.value.id for r_ in rets if isinstance(r_.value, ast.Name)}
+        if isinstance(tgt_, ast.Name) and len(rv_) == 1 and all(isinstance(r_.value, ast.Name) for r_ in rets):
+            v_ = next(iter(rv_))
+            clash = any(isinstance(x, ast.Name) and x.id == tgt_.id for x in ast.walk(fn)) and v_ != tgt_.id
+            if v_ in assigned and v_ not in binding and not clash:
+                sub[v_] = ast.Name(id=tgt_.id, ctx=ast.Load())
     new_body = [_Rename(sub).visit(copy.deepcopy(s)) for s in body]
 
     def mk_assign(value: ast.expr | None, at: ast.AST) -> list[ast.stmt]:
@@ -525,6 +534,8 @@ def _try_inline(st: ast.stmt, cands, caller, ccls, caller_locals) -> tuple[str, 
     else:
         last = new_body.pop()
         out = pre + new_body + mk_assign(last.value, last)
+    out = [s_ for s_ in out if not (isinstance(s_, ast.Assign) and len(s_.targets) == 1 and isinstance(s_.targets[0], ast.Name) and isinstance(s_.value, ast.Name)
+                                  and s_.targets[0].id == s_.value.id)]
     if not out:
         out = [ast.copy_location(ast.Pass(), st)]
     # inlined code is positioned at the call site (the rules order constructs by position); source order inside the block is kept in the column
